@@ -22,8 +22,9 @@ open DawgieVerif.Sched
 abbrev Content := Nat
 abbrev Unit' := Name × Target
 
-/-- what a unit found when it loaded its inputs: its source data and the stored contents -/
-abbrev Snap := Content × (Val → Content)
+/-- what a unit found when it loaded its inputs: its source data and the stored contents
+    (per value and target: an analysis reads every target, its own results live under `ALL`) -/
+abbrev Snap := Content × (Val → Target → Content)
 
 structure W where
   s : St
@@ -65,12 +66,22 @@ def poke (w : W) (x : Name) (t : Target) (c : Content) : W :=
     goes by run id: the version stored under the unit's own run id if there is one, else the
     latest.  Versions are not modelled; which contents a load may find is a hypothesis of the
     theorems, `WOk`, and is evaluated by the driver on every real history.) -/
-def read (w : W) (x : Name) (t : Target) (sn : Val → Content) : W :=
+def read (w : W) (x : Name) (t : Target) (sn : Val → Target → Content) : W :=
   { w with reading := w.reading ++ [((x, t), (w.source x t, sn))]
            dirty := w.dirty.filter fun k => decide (k ≠ (x, t)) }
 
 /-- what a load that returns the latest stored contents finds -/
-def latest (w : W) (t : Target) : Val → Content := fun v => w.store v t
+def latest (w : W) : Val → Target → Content := w.store
+
+/-- the units of an algorithm: one per target for a task, the all-targets unit for an analysis -/
+def unitsOf (g : Graph) (T : List Target) (x : Name) : List Target :=
+  if g.kind x = .analysis then [ALL] else T
+
+/-- the targets at which unit `(x, u)` reads value `v` (`prodA v`: `v` is written by an analysis,
+    so it lives under `ALL`; an analysis reads a task's value on every target) -/
+def readsT (g : Graph) (prodA : Val → Bool) (T : List Target) (x : Name) (u : Target) (v : Val) :
+    List Target :=
+  if prodA v then [ALL] else if g.kind x = .analysis then T else [u]
 
 /-- the worker stores the outputs of `(x, t)`; the values reported new are remembered -/
 def write (outs : Name → List Val) (w : W) (x : Name) (t : Target) (outc : Val → Content) : W :=
@@ -89,7 +100,7 @@ def reply (g : Graph) (outs : Name → List Val) (w : W) (x : Name) (t : Target)
 inductive WOp where
   | sched (op : Op)
   | poke (x : Name) (t : Target) (c : Content)
-  | read (x : Name) (t : Target) (sn : Val → Content)
+  | read (x : Name) (t : Target) (sn : Val → Target → Content)
   | write (x : Name) (t : Target) (outc : Val → Content)
   | reply (x : Name) (t : Target) (rid : Nat)
 
@@ -103,18 +114,23 @@ def stepW (g : Graph) (outs : Name → List Val) (w : W) : WOp → W
 def runW (g : Graph) (outs : Name → List Val) (w : W) (ops : List WOp) : W :=
   ops.foldl (stepW g outs) w
 
-/-- one from-scratch execution of algorithm `x` for target `t` on a store -/
-def scratchStep (outs : Name → List Val)
-    (F : Name → Target → Content → (Val → Content) → Val → Content)
-    (source : Name → Target → Content) (t : Target) (st : Val → Content) (x : Name) :
-    Val → Content :=
-  fun v => if v ∈ outs x then F x t (source x t) st v else st v
+abbrev Fun := Name → Target → Content → (Val → Target → Content) → Val → Content
 
-/-- a from-scratch run of the algorithms `order` (dependency order) for target `t` -/
-def scratch (outs : Name → List Val)
-    (F : Name → Target → Content → (Val → Content) → Val → Content)
-    (source : Name → Target → Content) (t : Target) (order : List Name) (st : Val → Content) :
-    Val → Content :=
-  order.foldl (scratchStep outs F source t) st
+/-- one from-scratch execution of unit `(x, u)` on a store -/
+def scratchUnit (outs : Name → List Val) (F : Fun) (source : Name → Target → Content) (x : Name)
+    (st : Val → Target → Content) (u : Target) : Val → Target → Content :=
+  fun v t => if v ∈ outs x ∧ t = u then F x u (source x u) st v else st v t
+
+/-- a from-scratch run of every unit of algorithm `x` -/
+def scratchNode (g : Graph) (T : List Target) (outs : Name → List Val) (F : Fun)
+    (source : Name → Target → Content) (st : Val → Target → Content) (x : Name) :
+    Val → Target → Content :=
+  (unitsOf g T x).foldl (scratchUnit outs F source x) st
+
+/-- a from-scratch run of the algorithms `order` (dependency order), every unit of each -/
+def scratch (g : Graph) (T : List Target) (outs : Name → List Val) (F : Fun)
+    (source : Name → Target → Content) (order : List Name) (st : Val → Target → Content) :
+    Val → Target → Content :=
+  order.foldl (scratchNode g T outs F source) st
 
 end DawgieVerif.Reprocess
